@@ -94,6 +94,19 @@ def step (line : String) : String :=
       let out := rows.map fun (pts, ρ) =>
         s!"{showOB (contains τ d2 pts ρ)} {showOB (contains τ d1 pts (ρ ++ σ2))} {showM (margin τ false d1 pts (ρ ++ σ2))} {showVars d2.freeVars} {showVars d1.freeVars} {showVars (d.peval σ0).freeVars}"
       return if out.isEmpty then "-" else ";".intercalate out
+    | "slicerec" => do
+      -- one call fixing the variables of several factors of a (nested) product
+      let atol ← rat; let rtol ← rat; let batol ← rat
+      let patol ← rat; let prtol ← rat
+      let d ← parseDom rat
+      let σ ← parseEnv rat
+      let rows ← many (do let pts ← parseEnv rat; let ρ ← parseEnv rat; pure (pts, ρ))
+      let τ : Tol Rat := ⟨atol, rtol, batol⟩
+      let πτ : Tol Rat := ⟨patol, prtol, patol⟩
+      let fvs := showVars (sliceRecFreeVars σ d)
+      let out := rows.map fun (pts, ρ) =>
+        s!"{showOB (sliceRec τ πτ σ d pts ρ)} {showOB (contains τ d pts (ρ ++ σ))} {showM (margin τ false d pts (ρ ++ σ))} {fvs} {showM (sliceRecMargin τ σ d pts ρ)}"
+      return if out.isEmpty then "-" else ";".intercalate out
     | "peval2" => do
       -- repeated evaluation: D(**σ1)(**σ2) at (pts, ρ)  vs  D at (pts, ρ ∪ σ2 ∪ σ1)
       let atol ← rat; let rtol ← rat; let batol ← rat
